@@ -1,0 +1,175 @@
+//go:build verif
+
+package gortsplib
+
+// Verification hooks for property C19 (media and control are bound to the negotiated peer).
+// Build tag verif only; nothing here changes behaviour. They let the /verif harness
+//   - call clientAddr.fill,
+//   - run the real read loops of serverUDPListener and clientUDPListener on an injected
+//     net.PacketConn (so that datagrams can claim any source address),
+//   - set the clocks / periods that drive session timeouts,
+//   - wait until a ServerSession has processed the events queued before the call.
+
+import (
+	"net"
+	"time"
+)
+
+// VerifPeerFill exports clientAddr.fill.
+func VerifPeerFill(ip net.IP, port int) ([net.IPv6len]byte, int) {
+	var ca clientAddr
+	ca.fill(ip, port)
+	return ca.ip, ca.port
+}
+
+// VerifPeerServerListener is a serverUDPListener created through initialize().
+type VerifPeerServerListener struct {
+	u *serverUDPListener
+}
+
+// VerifPeerNewServerListener runs serverUDPListener.initialize() (and therefore run()) on pc.
+func VerifPeerNewServerListener(pc net.PacketConn, address string) (*VerifPeerServerListener, error) {
+	u := &serverUDPListener{
+		listenPacket: func(_, _ string) (net.PacketConn, error) { return pc, nil },
+		writeTimeout: time.Second,
+		address:      address,
+	}
+	err := u.initialize()
+	if err != nil {
+		return nil, err
+	}
+	return &VerifPeerServerListener{u: u}, nil
+}
+
+// AddClient exports addClient.
+func (l *VerifPeerServerListener) AddClient(ip net.IP, port int, cb func([]byte) bool) {
+	l.u.addClient(ip, port, cb)
+}
+
+// RemoveClient exports removeClient.
+func (l *VerifPeerServerListener) RemoveClient(ip net.IP, port int) {
+	l.u.removeClient(ip, port)
+}
+
+// NumClients returns the size of the clients map.
+func (l *VerifPeerServerListener) NumClients() int {
+	l.u.clientsMutex.RLock()
+	defer l.u.clientsMutex.RUnlock()
+	return len(l.u.clients)
+}
+
+// Close exports close.
+func (l *VerifPeerServerListener) Close() {
+	l.u.close()
+}
+
+// VerifPeerClientListener is a clientUDPListener created through initialize().
+type VerifPeerClientListener struct {
+	u *clientUDPListener
+}
+
+// VerifPeerNewClientListener runs clientUDPListener.initialize() on pc and fills the fields
+// that Client.doSetup fills (readIP, readPort, readFunc).
+func VerifPeerNewClientListener(
+	pc net.PacketConn,
+	anyPortEnable bool,
+	readIP net.IP,
+	readPort int,
+	timeNow func() time.Time,
+	cb func([]byte) bool,
+) (*VerifPeerClientListener, error) {
+	c := &Client{
+		AnyPortEnable: anyPortEnable,
+		ListenPacket:  func(_, _ string) (net.PacketConn, error) { return pc, nil },
+		WriteTimeout:  time.Second,
+		timeNow:       timeNow,
+	}
+	u := &clientUDPListener{
+		c:       c,
+		address: ":0",
+	}
+	err := u.initialize()
+	if err != nil {
+		return nil, err
+	}
+	u.readFunc = cb
+	u.readIP = readIP
+	u.readPort = readPort
+	return &VerifPeerClientListener{u: u}, nil
+}
+
+// Start exports start.
+func (l *VerifPeerClientListener) Start() { l.u.start() }
+
+// Stop exports stop.
+func (l *VerifPeerClientListener) Stop() { l.u.stop() }
+
+// Close exports close.
+func (l *VerifPeerClientListener) Close() { l.u.close() }
+
+// ReadPort returns readPort (call it only while the listener is stopped or idle).
+func (l *VerifPeerClientListener) ReadPort() int { return l.u.readPort }
+
+// LastPacketTime returns lastPacketTime.
+func (l *VerifPeerClientListener) LastPacketTime() int64 { return l.u.lastPacketTime.Load() }
+
+// VerifPeerServerSetClock sets the private clock and stream-check period of a Server
+// (before Start).
+func VerifPeerServerSetClock(s *Server, timeNow func() time.Time, checkStreamPeriod time.Duration) {
+	s.timeNow = timeNow
+	s.checkStreamPeriod = checkStreamPeriod
+}
+
+// VerifPeerClientSetClock sets the private clock and timeout-check period of a Client
+// (before Start).
+func VerifPeerClientSetClock(c *Client, timeNow func() time.Time, checkTimeoutPeriod time.Duration) {
+	c.timeNow = timeNow
+	c.checkTimeoutPeriod = checkTimeoutPeriod
+}
+
+// VerifPeerListenerInfo describes one UDP listener of a client media.
+type VerifPeerListenerInfo struct {
+	ReadIP         net.IP
+	ReadPort       int
+	LocalPort      int
+	LastPacketTime int64
+}
+
+// VerifPeerClientListeners returns, for every setupped media (in SETUP order is not
+// guaranteed; sorted by local port), its RTP and RTCP listener.
+func VerifPeerClientListeners(c *Client) [][2]VerifPeerListenerInfo {
+	var out [][2]VerifPeerListenerInfo
+	for _, cm := range c.setuppedMedias {
+		if cm.udpRTPListener == nil {
+			continue
+		}
+		var e [2]VerifPeerListenerInfo
+		for i, l := range []*clientUDPListener{cm.udpRTPListener, cm.udpRTCPListener} {
+			e[i] = VerifPeerListenerInfo{
+				ReadIP:         l.readIP,
+				ReadPort:       l.readPort,
+				LocalPort:      l.port(),
+				LastPacketTime: l.lastPacketTime.Load(),
+			}
+		}
+		out = append(out, e)
+	}
+	return out
+}
+
+// VerifPeerSessionSync returns after the session's run loop has processed every event
+// that was queued before the call, or has terminated. It sends a removal of a connection
+// that is not associated (nil), which the loop treats as a no-op.
+func VerifPeerSessionSync(ss *ServerSession) {
+	ss.removeConn(nil)
+}
+
+// VerifPeerSessionClosing reports whether the session's context has been cancelled.
+func VerifPeerSessionClosing(ss *ServerSession) bool {
+	return ss.ctx.Err() != nil
+}
+
+// VerifPeerSessionUDPLastPacketTime returns udpLastPacketTime.
+func VerifPeerSessionUDPLastPacketTime(ss *ServerSession) int64 {
+	return ss.udpLastPacketTime.Load()
+}
